@@ -26,7 +26,11 @@ RULE = (
 EXPLANATION = (
     "Lean theorems C04_* over ℝ (covariant gradient and Laplacian for arbitrary χ, supercurrent invariance, Euler "
     "step covariance, identical mu/Js/Jn, whole run by induction, uniform shift = gauge function c·r); implementation "
-    "matrices checked for covariance; paired real runs compared in gauge-invariant quantities."
+    "matrices checked for covariance; paired real runs compared in gauge-invariant quantities. Time gauge (C04Time): "
+    "mu -> mu + c with a global phase on psi -- one site, the operators, and by induction a whole ADAPTIVE run (retry "
+    "loop, windowed rule fed with max|change of |psi|^2|) use the same time steps and give the same |psi|^2, Js, Jn for "
+    "any constants returned by the Poisson solver (terminal value unset or 0); real run pairs with a constant added to "
+    "the potential entering every psi update are compared, time steps included."
 )
 ASSUMPTIONS = [
     "run-level agreement to 1e-8 on short runs (<= 40 steps) — rounding differs between gauges; mu compared modulo its mean, psi modulo the gauge phase and a global phase",
@@ -222,14 +226,72 @@ def run_level(ctx, stop_first=False):
     return first
 
 
+def time_gauge_level(ctx, stop_first=False):
+    """the gauge function chi = -c t: mu -> mu + c with psi acquiring a global phase.  Two runs of one problem, the second
+    with the constant c added to the scalar potential that enters every psi update (the phase follows by itself from
+    the temporal link variable exp(-i mu dt)); |psi|, the currents, mu - <mu> AND the adaptive time steps must agree.
+    The constant of mu is fixed by the Poisson solve with Neumann data and is not under the user's control."""
+    from tdgl.solver.solver import TDGLSolver
+
+    first = None
+    cfgs = [
+        dict(dev="bar", gamma=1.0, cur={"source": 3.0, "drain": -3.0}, B=0.3, c=0.8, opts=dict(dt_init=1e-3, dt_max=5e-2, adaptive=True, adaptive_window=3, solve_time=0.6)),
+        dict(dev="bar", gamma=10.0, cur={"source": 3.0, "drain": -3.0}, B=0.0, c=-0.05, opts=dict(dt_init=1e-3, dt_max=5e-2, adaptive=True, adaptive_window=2, solve_time=0.4, terminal_psi=None)),
+        dict(dev="ring", gamma=1.0, cur=None, B=0.6, c=2.0, opts=dict(dt_init=2e-3, dt_max=5e-2, adaptive=True, adaptive_window=4, solve_time=0.5)),
+    ]
+    o_upd = TDGLSolver.update
+    for cfg in cfgs:
+        dev = zoo.make_device(cfg["dev"], ctx.rng, max_edge_length=1.0, gamma=cfg["gamma"])
+        res = []
+        for c in (0.0, cfg["c"]):
+            def upd(self, state, rs, dt, *, mu, _c=c, **kw):
+                return o_upd(self, state, rs, dt, mu=mu + _c, **kw)
+
+            out = os.path.join(str(ctx.work), f"c04_tg_{c}.h5")
+            if os.path.exists(out):
+                os.remove(out)
+            TDGLSolver.update = upd
+            try:
+                sol = tdgl.solve(dev, runs.options(save_every=5, output_file=out, progress_interval=10**9, **cfg["opts"]), applied_vector_potential=cfg["B"], terminal_currents=cfg["cur"])
+            finally:
+                TDGLSolver.update = o_upd
+            res.append((runs.parse_h5(sol.path)[0], np.asarray(sol.dynamics.dt)))
+        (fa_, dta), (fb_, dtb) = res
+        tag = dict(device=cfg["dev"], gamma=cfg["gamma"], mu_offset=cfg["c"], bias=cfg["cur"] is not None)
+        ctx.case(("time-gauge", cfg["dev"], cfg["gamma"], cfg["c"]), nontrivial=len(dta) > 8)
+        ctx.count("mu_offset_run_pairs")
+        bad = None
+        if len(dta) != len(dtb) or float(np.abs(dta - dtb).max() / dta.max()) > 1e-7:
+            n = min(len(dta), len(dtb))
+            k = int(np.argmax(np.abs(dta[:n] - dtb[:n]) > 1e-7 * dta.max())) if n else 0
+            bad = f"the time steps depend on the additive constant of mu: {len(dta)} vs {len(dtb)} steps, first difference at step {k}: {dta[k:k + 3].tolist()} vs {dtb[k:k + 3].tolist()}"
+        else:
+            ctx.tol("time steps under mu -> mu + c (relative)", float(np.abs(dta - dtb).max() / dta.max()), 1e-7)
+            for fa, fb in zip(fa_, fb_):
+                da, db = fa["data"], fb["data"]
+                w = max(float(np.abs(np.abs(da["psi"]) - np.abs(db["psi"])).max()), float(np.abs(da["supercurrent"] - db["supercurrent"]).max()),
+                        float(np.abs(da["normal_current"] - db["normal_current"]).max()))
+                ctx.tol("observables under mu -> mu + c", w, 1e-7)
+                if w > 1e-7:
+                    bad = f"step {fa['step']}: |psi| / currents differ by {w:.3e} when the constant {cfg['c']} is added to mu"
+                    break
+        if bad:
+            ctx.fail("gauge-mu-constant", bad, tag)
+            first = first or dict(key="gauge-mu-constant", what=bad, **tag)
+            if stop_first:
+                return first
+    return first
+
+
 def run(ctx):
     operator_level(ctx)
     run_level(ctx)
+    time_gauge_level(ctx)
 
 
 def search(ctx):
     ctx.rng = np.random.default_rng(ctx.seed + 99991)
-    return operator_level(ctx, with_model=False) or run_level(ctx, stop_first=True)
+    return operator_level(ctx, with_model=False) or run_level(ctx, stop_first=True) or time_gauge_level(ctx, stop_first=True)
 
 
 def replay(payload):
